@@ -137,7 +137,7 @@ func runC08(c *Ctx, scAny any) {
 	finished := false
 	simsync.Go("h:history", func() {
 		defer func() { finished = true }()
-		time.Sleep(time.Duration(sc.FirstAtMS) * time.Millisecond)
+		Sleep(time.Duration(sc.FirstAtMS) * time.Millisecond)
 		// the client builds its packet now, on its own clock
 		var err error
 		if sc.WS {
@@ -169,7 +169,7 @@ func runC08(c *Ctx, scAny any) {
 				})
 			}
 			for pending > 0 {
-				time.Sleep(time.Microsecond)
+				Sleep(time.Microsecond)
 			}
 		}
 		// the genuine first presentation
@@ -182,7 +182,7 @@ func runC08(c *Ctx, scAny any) {
 		}
 		for _, p := range ps {
 			if d := time.Duration(p.AtMS)*time.Millisecond - time.Since(base); d > 0 {
-				time.Sleep(d)
+				Sleep(d)
 			}
 			present(p.Alter, p.N)
 		}
